@@ -449,6 +449,12 @@ pub const SLICE_POOL: &[&str] = &[
     r#"[a-zA-Z0-9_]+"#,
     r#"[a-z ]{2,}"#,
     r#"(.|\n)+"#,
+    r#"[A-Z]{1,8}"#,
+    r#"[A-Z]{1,3}"#,
+    r#"[a-z]{1,3}"#,
+    r#"[0-9]{1,3}"#,
+    r#"[A-Za-z]{1,4}"#,
+    r#"[a-z]+"#,
 ];
 
 // ------------------------------------------------------------------ world
@@ -478,7 +484,20 @@ pub fn make_factory(
         None => SlicedBiasComputer::general_slices(),
         Some(l) => l.clone(),
     };
-    let mut f = ParserFactory::new(tok_env, caps, &sl)?;
+    // every other explicit list (decided by a hash of the list, so that it is a function of the
+    // scenario) is installed through ParserFactory::with_slices() on a factory that was built
+    // with another list: nothing of the first list may survive in the derived factory
+    let derived = slices.is_some() && crate::rng::fnv(&sl.join("\u{1}")) % 2 == 0;
+    let mut f = if derived {
+        let first: Vec<String> = if sl.len() <= 3 {
+            SlicedBiasComputer::general_slices()
+        } else {
+            SLICE_POOL.iter().rev().take(sl.len()).map(|s| s.to_string()).collect()
+        };
+        ParserFactory::new(tok_env, caps, &first)?.with_slices(&sl)?
+    } else {
+        ParserFactory::new(tok_env, caps, &sl)?
+    };
     *f.limits_mut() = limits.to_limits();
     f.quiet();
     Ok(f)
